@@ -8,7 +8,7 @@ From Coq Require Import List NArith ZArith Bool.
 From GoGit Require Import Base.Out Model.PktLine Model.C35Utf8 Model.Packp Model.PackpV2
   Proofs.C34Pkt Proofs.C35Base Proofs.C35Msgs Proofs.C35Caps Proofs.C35Adv Proofs.C35Upd Proofs.C35Ul
   Proofs.C35V2Base Proofs.C35V2Caps Proofs.C35V2Fetch Proofs.C35V2Ls Proofs.C35V2Out
-  Spec.GitProto Proofs.C35Git Proofs.C35GitV2.
+  Spec.GitProto Proofs.C35Git Proofs.C35GitV2 Proofs.C35GitV0.
 Import ListNotations.
 
 (* capability.List: DecodeList (l.String()) = l for lists with distinct,
@@ -265,6 +265,14 @@ Proof.
 Qed.
 Print Assumptions C35_pushopts_git.
 
+(* upload-request: first want with the capabilities, further wants, shallow lines, the depth request, the filter —
+   in the order of the grammar; beyond ul_ok, ul_git_ok asks for one object format, a depth below 2^31,
+   a positive deepen-since and non-empty deepen-not references (what git's grammar and integer types hold) *)
+Theorem C35_ulreq_git : forall hexsz u, ul_ok u = true -> ul_git_ok hexsz u = true ->
+  exists ps, ul_encode u = ULok ps /\ git_ulreq hexsz ps = Some (ul_abs (ul_canon u)).
+Proof. exact git_ulreq_enc. Qed.
+Print Assumptions C35_ulreq_git.
+
 (* v2: git reads each capability line as key[=value]; the values of a key are one blank-separated value *)
 Theorem C35_capadv_git : forall l ps, caps2_ok l = true -> capadv_encode 2 l = Some ps -> git_capadv ps = Some (map cap2_abs l).
 Proof. exact git_capadv_enc. Qed.
@@ -316,6 +324,15 @@ Example C35_ex_v2 :
   fetchout_ok (mkfetchout (Some ([h1], true)) (Some ([h2], [])) (Some [(B "refs/heads/main", h1)]) (Some [B "https://x/y.pack"]) true) = true /\
   fetchout_ok (mkfetchout (Some ([], false)) None None None false) = true /\
   fetchout_ok (mkfetchout (Some ([h1], false)) None None None true) = false.
+Proof. vm_compute. repeat split. Qed.
+
+Example C35_ex_git :
+  sized 40 h1 = true /\ sized 40 h3 = false /\ sized 64 h3 = true /\
+  ul_git_ok 40 (mkulreq [(B "ofs-delta", [])] [h2; h1; h2] [h1] 0 (Some 1700000000%Z) [B "refs/heads/old"] (B "blob:none")) = true /\
+  git_ulreq 40 [PData (B "want " ++ hash_str h1 ++ B " multi_ack ofs-delta" ++ [NL]); PData (B "deepen 3" ++ [NL]); PFlush]
+    = Some (mkgulreq [B "multi_ack"; B "ofs-delta"] [h1] [] (Some 3%Z) None [] None) /\
+  git_ulreq 40 [PData (B "want " ++ hash_str h1 ++ [NL]); PData (B "deepen 3" ++ [NL]); PData (B "deepen-since 5" ++ [NL]); PFlush] = None /\
+  report_ok (mkreport (B "ok") [(B "refs/heads/m", B "ok"); (B "refs/x", B "non fast forward")]) = true.
 Proof. vm_compute. repeat split. Qed.
 
 Example C35_ex_srvresp :
